@@ -65,12 +65,16 @@ def step (st : St) (op : List String) (impl : String) : St × String :=
   | ["js.reset"] => ({}, "-\tna")
   | ["js.end"] => ({}, "-\tna")
   | ["js.group", _] => ({}, "-\tna")
-  | ["js.bytes", h] =>
+  | ["js.bytes", h, value] =>
     match textOfHex h with
     | none => (st, "bad-op\tna")
     | some t =>
       let model := match (parseStrict t).bind bytesOf with | some b => s!"ok:{hx b}" | none => "err"
-      (st, model ++ "\t" ++ (if impl = "panic" then "fail:panic" else "ok"))
+      -- the statement: every presentation of a byte string parses, and to that byte string
+      let verdict := if impl = "panic" then "fail:panic"
+        else if value.startsWith "is:" && impl != "ok:" ++ (value.drop 3).toString then "fail:binary-member-presentation-did-not-parse-to-its-value"
+        else "ok"
+      (st, model ++ "\t" ++ verdict)
   | ["js.u32", h] =>
     match textOfHex h with
     | none => (st, "bad-op\tna")
